@@ -437,6 +437,11 @@ std::string check(const Case& c, vf::Ctx& ctx)
         default:
             got = f.str();
         }
+        // reading is repeatable: the formatter is not consumed by str()
+        if (f.str() != got)
+        {
+            got = "<second str() differs> " + f.str();
+        }
     }
     catch (const std::exception& e)
     {
